@@ -113,7 +113,7 @@ class Arena:
                 raise
             sess.stats['strike_too_late'] += 1
             return False
-        self.struck.append((sess.n, kind, name))
+        self.struck.append((sess.n, kind, name, sess.now()))
         sess.stats['struck:' + kind] += 1
         return True
 
